@@ -2,7 +2,7 @@
 From ChiaV.Base Require Import Bytes.
 From ChiaV.Clvm Require Import Sexp Ints.
 From ChiaV.Gen Require Import Opcodes.
-From ChiaV.Cond Require Import Model Spec Facts Invariants CostFacts.
+From ChiaV.Cond Require Import Model Spec Facts Invariants CostFacts LimitExact.
 Open Scope N_scope.
 From ChiaV.Props Require Import C04.
 Check C04_cost_constants_are_consensus :
@@ -22,3 +22,10 @@ Check C04_cost_accounting :
   parse_spends vk H K fl V t max_cost clvm_cost = Ok (b, spends, pairs) ->
   b_cost b = b_cond_cost b /\ b_cond_cost b = sumN (map sp_cond_cost spends) /\ b_cost b <= max_cost.
 Print Assumptions C04_cost_accounting.
+Check C04_limit_exact :
+  forall vk H K fl V t max_cost clvm_cost b spends pairs,
+  parse_spends vk H K fl V t max_cost clvm_cost = Ok (b, spends, pairs) ->
+  b_cost b <= max_cost /\
+  parse_spends vk H K fl V t (b_cost b) clvm_cost = Ok (b, spends, pairs) /\
+  (forall m, m < b_cost b -> parse_spends vk H K fl V t m clvm_cost = Err CostExceeded).
+Print Assumptions C04_limit_exact.
